@@ -37,12 +37,12 @@ func runC14(c *Ctx) error {
 		}
 	}
 	// barrier races on fresh keys (check-then-act windows are tiny)
-	for i := 0; i < c.Pick(6, 40); i++ {
+	for i := 0; i < c.Pick(6, 200); i++ {
 		cases = append(cases, c14Case{Class: "barrier", Window: 50 * time.Millisecond, Goroutines: 32, Keys: 40, Rounds: 0, Decorator: i%2 == 1})
 	}
 	// a key presented again in the last fraction of its window must still be suppressed
 	for _, w := range []time.Duration{time.Millisecond, 2 * time.Millisecond, 3 * time.Millisecond, 5 * time.Millisecond} {
-		for i := 0; i < c.Pick(6, 24); i++ {
+		for i := 0; i < c.Pick(6, 100); i++ {
 			cases = append(cases, c14Case{Class: "window-edge", Window: w, EdgeTrials: 25})
 		}
 	}
